@@ -159,11 +159,11 @@ Fixpoint valid_schema (fuel : nat) (v : jval) : bool :=
             let x := snd kv in
             if str_eqb k k_type then
               is_simple_type x
-              || match x with VArr (_ :: _ as l) => forallb is_simple_type l && nodup_texts l | _ => false end
+              || match x with VArr ((_ :: _) as l) => forallb is_simple_type l && nodup_texts l | _ => false end
             else if str_eqb k k_anchor then match x with VText s => legal s | _ => false end
             else if str_eqb k k_ref then is_text x
             else if str_eqb k k_oneOf then
-              match x with VArr (_ :: _ as l) => forallb (valid_schema f) l | _ => false end
+              match x with VArr ((_ :: _) as l) => forallb (valid_schema f) l | _ => false end
             else if str_eqb k k_properties then
               match x with VMap ps => forallb (fun p => valid_schema f (snd p)) ps | _ => false end
             else if str_eqb k k_items then valid_schema f x
@@ -257,6 +257,11 @@ with counters_kids (ks : items) : list id :=
 (* ------------------------------------------------------------------------------------------
    A valid record for an item: the bytes a mainframe stores for some value of the item
    (Spec/Encode.v), of the width the property lists. *)
+(* code page 037 letters: an alphabetic item (PIC A) holds letters *)
+Definition ebcdic_letter (b : N) : bool :=
+  ((193 <=? b) && (b <=? 201)) || ((209 <=? b) && (b <=? 217)) || ((226 <=? b) && (b <=? 233))
+  || ((129 <=? b) && (b <=? 137)) || ((145 <=? b) && (b <=? 153)) || ((162 <=? b) && (b <=? 169)).
+
 Definition valid_record (u : N) (p : fpic) (buffer : list N) : Prop :=
   match p with
   | PNum s m n _ _ =>
@@ -268,7 +273,8 @@ Definition valid_record (u : N) (p : fpic) (buffer : list N) : Prop :=
       \/ (In u binary_spellings /\ exists w v,
           spec_binary_width (m + n) = Some w /\
           (- 2 ^ (8 * Z.of_nat w - 1) <= v < 2 ^ (8 * Z.of_nat w - 1))%Z /\ buffer = enc_be w v)
-  | PText _ k _ => u = display_spelling /\ length buffer = k
+  | PText alpha k _ =>
+      u = display_spelling /\ length buffer = k /\ (alpha = true -> forallb ebcdic_letter buffer = true)
   end.
 
 Definition is_float_spelling (u : N) : bool :=
